@@ -408,6 +408,12 @@ fn run(cmd: &str, args: &[String], seed: u64, rep: &mut Report) {
             rep.extra.insert("events".into(), json!(trace.len()));
             write_ndjson(arg(&args, "--out-trace").unwrap(), &trace);
         }
+        "master-trace" => {
+            let mut trace = Vec::new();
+            master::trace_paging(seed, arg_u64(&args, "--runs", 2000) as usize, &mut trace, &mut rep);
+            rep.extra.insert("events".into(), json!(trace.len()));
+            write_ndjson(arg(&args, "--out-trace").unwrap(), &trace);
+        }
         "unreal2-trace" => {
             let layouts = layout::LayoutSet::load(arg(&args, "--layouts").unwrap());
             let mut trace = Vec::new();
